@@ -128,6 +128,8 @@ func hS(s S) S { return s }
 func hPS(p *S) *S { return p }
 func hInts(xs []int) []int { return xs }
 func hVar(xs ...int) int { return len(xs) }
+func hPair(a, b int) int { return a + b }
+func hPairS(a, b string) string { return a + b }
 
 func useInt(a int)       { gInt = a }
 func useStr(s string)    { gStr = s }
@@ -246,6 +248,9 @@ func (g *fgen) expr(t ty, d int) string {
 			func() string { g.count("e:method"); return b(tS) + ".Get()" },
 			func() string { g.count("e:variadic"); return "hVar(" + e(tInt) + ", " + b(tInt) + ")" },
 			func() string { g.count("e:invoke2"); return "mkJ().N(" + e(tInt) + ")" },
+			func() string { g.count("e:call-pair"); return "hPair(" + e(tInt) + ", " + e(tInt) + ")" },
+			func() string { g.count("e:not-int"); return "(^" + e(tInt) + ")" },
+			func() string { g.count("e:slice2arrayptr"); return "(*[1]int)(" + b(tInts) + ")[0]" },
 		)
 	case tStr:
 		return pick(
@@ -265,6 +270,7 @@ func (g *fgen) expr(t ty, d int) string {
 			func() string { g.count("e:recv"); return "<-" + b(tChanS) },
 			func() string { g.count("e:method"); return b(tPS) + ".Name()" },
 			func() string { g.count("e:convert-rune"); return "string(rune(" + b(tInt) + "))" },
+			func() string { g.count("e:call-pair"); return "hPairS(" + e(tStr) + ", " + e(tStr) + ")" },
 		)
 	case tFloat:
 		return pick(
